@@ -87,7 +87,7 @@ MUTANTS = [
                 lhh_count[row, col] = uint_maxval""", """            lhh_count[row, col] += value""")]),
     dict(name="hh-merge-keeps-equal-other", props=["C04"], edits=[(HH, "                if lhh_count[row, col] >= other_lhh_count[row, col]:", "                if lhh_count[row, col] > other_lhh_count[row, col] + uint32(1):")]),
     # ---- C05
-    dict(name="c05-plain-update-linear", props=["C05", "C01"], edits=[(CM, """        count = cms[row, buckets[row]]
+    dict(name="c05-plain-update-linear", props=["C05"], edits=[(CM, """        count = cms[row, buckets[row]]
         if count < new_count:
             cms[row, buckets[row]] = new_count
 
